@@ -369,3 +369,236 @@ def gen_name_chain(sc, mac):
     with open(path, "w") as f:
         f.write("\n".join(out) + "\n")
     return path, n
+
+
+# --------------------------------------------------------------------------- Auger (C11, C08)
+
+SHELL_RE = r"(K|L[123]|M[1-5]|N[1-7]|O[1-7]|P[1-5]|Q[1-3])"
+
+
+def parse_auger_name(n):
+    """'L1_M1L2_AUGER' -> ('L1', 'M1', 'L2')"""
+    m = re.match(r"^%s_%s%s_AUGER$" % (SHELL_RE, SHELL_RE, SHELL_RE), n)
+    if not m:
+        raise Undecided("cannot parse Auger macro name " + n)
+    return m.group(1), m.group(2), m.group(3)
+
+
+def gen_auger_spec(sc, mac):
+    """gen/spec_auger.h, derived from the names of the 996 Auger macros and the Coster-Kronig transition macros:
+       * initial shell of each transition (name prefix)
+       * Coster-Kronig type: one of the two final holes lies in the principal shell of the initial vacancy
+       * per shell: the Coster-Kronig-type transitions in ascending macro order (subtracted from the shell total)
+       * per shell: the Coster-Kronig probabilities F<X>ij that start in it, ascending                       """
+    d = sc.gen_dir()
+    shells9 = ["K", "L1", "L2", "L3", "M1", "M2", "M3", "M4", "M5"]
+    info = []
+    vals = [v for _, v in mac.auger]
+    if vals != list(range(len(vals))):
+        raise Undecided("Auger macro values are not 0..N-1 in header order")
+    for n, v in mac.auger:
+        a, b, c = parse_auger_name(n)
+        ck = (b[0] == a[0]) or (c[0] == a[0])
+        info.append((n, v, a, b, c, ck))
+    out = ["/* generated from the macro names of include/xraylib-auger.h and the F*_TRANS macros of include/xraylib.h */",
+           "#ifndef SPEC_AUGER_H", "#define SPEC_AUGER_H",
+           "#define SPEC_NAUGER %d" % len(info),
+           "static const signed char SPEC_AUGER_SHELL[%d] = {%s};" % (len(info), ", ".join(a + "_SHELL" for _, _, a, _, _, _ in info)),
+           "static const unsigned char SPEC_AUGER_CK[%d] = {%s};" % (len(info), ", ".join("1" if x[5] else "0" for x in info))]
+    for s in shells9:
+        lst = [n for n, v, a, b, c, ck in info if a == s and ck]
+        out.append("#define SPEC_NCK_%s %d" % (s, len(lst)))
+        out.append("static const int SPEC_CK_%s[%d] = {%s};" % (s, max(len(lst), 1), ", ".join(lst) if lst else "0"))
+        rng = [v for n, v, a, b, c, ck in info if a == s]
+        if rng and rng != list(range(rng[0], rng[-1] + 1)):
+            raise Undecided("Auger macros of shell %s are not contiguous" % s)
+        out.append("#define SPEC_AUGER_%s_LO %d" % (s, rng[0] if rng else 1))
+        out.append("#define SPEC_AUGER_%s_HI %d" % (s, rng[-1] if rng else 0))
+    # Coster-Kronig probabilities per source sub-shell: F L|M [P] i j  -> source = letter + i
+    for s in shells9:
+        lst = []
+        for n, v in mac.trans:
+            m = re.match(r"^F([LM])P?(\d)(\d)_TRANS$", n)
+            if m and m.group(1) + m.group(2) == s:
+                lst.append(n)
+        out.append("#define SPEC_NCKTRANS_%s %d" % (s, len(lst)))
+        out.append("static const int SPEC_CKTRANS_%s[%d] = {%s};" % (s, max(len(lst), 1), ", ".join(lst) if lst else "0"))
+    out.append("#endif")
+    with open(os.path.join(d, "spec_auger.h"), "w") as f:
+        f.write("\n".join(out) + "\n")
+    return info
+
+
+# --------------------------------------------------------------------------- cascade model (C08)
+
+CASC_SHELLS = ["K", "L1", "L2", "L3", "M1", "M2", "M3", "M4", "M5"]
+
+
+def _inner_shells(t):
+    """excited inner shells whose vacancies can be transferred to t: every shell of a lower principal shell"""
+    order = {"K": 0, "L": 1, "M": 2}
+    return [s for s in CASC_SHELLS if order[s[0]] < order[t[0]]]
+
+
+def _lower_subshells(t):
+    return [s for s in CASC_SHELLS if s[0] == t[0] and s != "K" and len(s) == 2 and len(t) == 2 and int(s[1]) < int(t[1])]
+
+
+def gen_cascade(sc, mac):
+    """gen/h_cascade.c: lemma harnesses whose right-hand sides are generated from the macro names.
+
+    layer 1  P<T>_get_cross_sections_constant_{auger_only,full}(Z, S)
+             = [FluorYield(S) * RadRate(<S><T>_LINE) +] AugerYield(S) * sum of AugerRate over every S_xy_AUGER macro with
+               a final hole in T (twice when both holes are T), ascending, Coster-Kronig-type transitions left out (C11)
+    layer 2  P<T>_{pure,rad_cascade,auger_cascade,full_cascade}_kissel(Z, E, vacancies of the shells above)
+             = CS_Photo_Partial(T) + per excited inner shell S with vacancies: nothing / FluorYield(S)*P_S*RadRate(ST) /
+               P_S*constant_auger_only[T][S] / P_S*constant_full[T][S]  + Coster-Kronig feeding (F<X>ij by name) from the lower
+               sub-shells of the same principal shell
+    layer 3  CS_FluorShell_Kissel_<variant>(Z, shell, E) = P<shell>_<variant>(...chain of the shells above...) * FluorYield(shell)
+    """
+    d = sc.gen_dir()
+    info = []
+    for n, v in mac.auger:
+        a, b, c = parse_auger_name(n)
+        ck = (b[0] == a[0]) or (c[0] == a[0])
+        info.append((n, v, a, b, c, ck))
+    o = ['/* generated by vlib/specgen.py gen_cascade() from the macro names of the headers of the current tree */',
+         '#include "vh.h"', '#include "vstub.h"', '#include "leaves.h"',
+         '#define FAILS(r, error) ((r) == 0.0 && ONE_ERROR(error))',
+         'extern double xrf_cross_sections_constants_full[ZMAX+1][M5_SHELL+1][L3_SHELL+1];',
+         'extern double xrf_cross_sections_constants_auger_only[ZMAX+1][M5_SHELL+1][L3_SHELL+1];']
+    groups = {"layer1": [], "layer2": [], "layer3": []}
+
+    # ---- layer 1
+    for t in CASC_SHELLS[1:]:
+        for variant in ("auger_only", "full"):
+            fn = "P%s_get_cross_sections_constant_%s" % (t, variant)
+            name = "lemma_" + fn
+            o.append("LEMMA(%s)\n{\n  ND_Z(Z);\n  double r, e;\n  int s;" % name)
+            srcs = [s for s in _inner_shells(t) if s in ("K", "L1", "L2", "L3")]
+            for s in srcs:
+                terms = []
+                for n, v, a, b, c, ck in info:
+                    if a != s or ck:
+                        continue
+                    k = (1 if b == t else 0) + (1 if c == t else 0)
+                    if k == 2:
+                        terms.append("2 * LEAF_AugerRate(Z, %s)" % n)
+                    elif k == 1:
+                        terms.append("LEAF_AugerRate(Z, %s)" % n)
+                if not terms:
+                    terms = ["0.0"]
+                aug = "LEAF_AugerYield(Z, %s_SHELL) * (\n      %s)" % (s, " +\n      ".join(terms))
+                if variant == "full":
+                    line = "%s%s_LINE" % (s, t)
+                    if line not in mac.line:
+                        raise Undecided("no line macro " + line)
+                    expr = "(LEAF_FluorYield(Z, %s_SHELL) * LEAF_RadRate(Z, %s) +\n    %s)" % (s, line, aug)
+                else:
+                    expr = aug
+                o.append("  r = %s(Z, %s_SHELL);\n  e = %s;" % (fn, s, expr))
+                o.append('  VASSERT(SAME(r, e), "%s(%s): %svacancy transfer = %sAuger yield x sum of Auger rates leaving a hole in %s (double holes twice), by name");'
+                         % (fn, s, "", "yield x radiative rate + " if variant == "full" else "", t))
+            o.append("  { ND_SHELL(other); VASSUME(%s);" % " && ".join("other != %s_SHELL" % s for s in srcs))
+            o.append('    VASSERT(%s(Z, other) == 0.0, "%s: no transfer from any other shell"); }' % (fn, fn))
+            o.append('  VCANARY("%s end");\n}' % fn)
+            groups["layer1"].append((name, fn))
+
+    # ---- layer 2
+    kinds = [("pure", "pure_kissel"), ("rad", "rad_cascade_kissel"), ("auger", "auger_cascade_kissel"), ("full", "full_cascade_kissel")]
+    sig = {}
+    for t in CASC_SHELLS[1:]:
+        for kind, suffix in kinds:
+            fn = "P%s_%s" % (t, suffix)
+            inner = [] if kind == "pure" else _inner_shells(t)
+            lower = _lower_subshells(t)
+            params = inner + lower
+            sig[fn] = params
+            name = "lemma_" + fn
+            o.append("LEMMA(%s)\n{\n  ND_Z(Z); ND_ENERGY(E);" % name)
+            for p in params:
+                o.append("  ND_FINITE(P%s);" % p)
+            o.append("  ND_ERRSLOT(error);\n  double r, e;\n  GHOST_RESET();")
+            o.append("  r = %s(%s, error);" % (fn, ", ".join(["Z", "E"] + ["P" + p for p in params])))
+            o.append("  if (!LEAFOK_CS_Photo_Partial(Z, %s_SHELL, E)) {" % t)
+            o.append('    VASSERT(FAILS(r, error), "%s: the shell\'s own photo-ionisation undefined (e.g. below the edge) fails with one error");' % fn)
+            o.append("  } else {\n    e = LEAF_CS_Photo_Partial(Z, %s_SHELL, E);" % t)
+            for s in inner:
+                line = "%s%s_LINE" % (s, t)
+                if kind == "rad":
+                    term = "LEAF_FluorYield(Z, %s_SHELL) * P%s * LEAF_RadRate(Z, %s)" % (s, s, line)
+                elif kind == "auger":
+                    term = "P%s * xrf_cross_sections_constants_auger_only[Z][%s_SHELL][%s_SHELL]" % (s, t, s)
+                else:
+                    term = "P%s * xrf_cross_sections_constants_full[Z][%s_SHELL][%s_SHELL]" % (s, t, s)
+                o.append("    if (P%s > 0.0) e += %s;" % (s, term))
+            for s in lower:
+                cks = [n for n, v in mac.trans if re.match(r"^F%sP?%s%s_TRANS$" % (t[0], s[1], t[1]), n)]
+                if not cks:
+                    raise Undecided("no Coster-Kronig macro from %s to %s" % (s, t))
+                ck = " + ".join("LEAF_CosKronTransProb(Z, %s)" % c for c in cks)
+                if len(cks) > 1:
+                    ck = "(" + ck + ")"
+                o.append("    if (P%s > 0.0) e += %s * P%s;" % (s, ck, s))
+            o.append('    VCANARY("%s defined");' % fn)
+            o.append('    VASSERT(SAME(r, e) && NO_ERROR(error), "%s = own partial photo-ionisation + %s + Coster-Kronig feeding from the lower sub-shells (macros by name)");'
+                     % (fn, {"pure": "no transfer", "rad": "radiative transfer (yield x vacancies x rate)", "auger": "Auger transfer constants", "full": "full transfer constants"}[kind]))
+            o.append("  }\n  ERRSLOT_DONE(error);\n}")
+            groups["layer2"].append((name, fn))
+
+    # ---- layer 3
+    variants = [("no_Cascade", "pure"), ("Radiative_Cascade", "rad"), ("Nonradiative_Cascade", "auger"), ("Cascade", "full")]
+    sfx = dict((k, s) for k, s in kinds)
+    for vname, kind in variants:
+        fn = "CS_FluorShell_Kissel_" + vname
+        for t in CASC_SHELLS:
+            name = "lemma_%s_%s" % (fn, t)
+            o.append("LEMMA(%s)\n{\n  ND_Z(Z); ND_ENERGY(E); ND_ERRSLOT(error);\n  double r;\n  GHOST_RESET();" % name)
+            o.append("  r = %s(Z, %s_SHELL, E, error);" % (fn, t))
+            o.append("  if (!Z_OK(Z) || E <= 0.0) { VASSERT(FAILS(r, error), \"%s: Z or energy out of range is an error\"); }" % fn)
+            o.append("  else if (!LEAFOK_FluorYield(Z, %s_SHELL)) { VASSERT(FAILS(r, error), \"%s: no fluorescence yield is an error\"); }" % (t, fn))
+            o.append("  else {")
+            if t == "K":
+                vac = "LEAF_CS_Photo_Partial(Z, K_SHELL, E)"
+                ok = "LEAFOK_CS_Photo_Partial(Z, K_SHELL, E)"
+            else:
+                # chain of the shells above t, in the order K, L1, ... (each receives the vacancies of all the earlier ones)
+                vals = {}
+                for s in CASC_SHELLS:
+                    if s == "K":
+                        if kind != "pure":
+                            o.append("    double PK = LEAF_CS_Photo_Partial(Z, K_SHELL, E);")
+                            vals["K"] = "PK"
+                        continue
+                    f2 = "P%s_%s" % (s, sfx[kind])
+                    args = ", ".join(["Z", "E"] + ["P" + p for p in sig[f2]])
+                    if s == t:
+                        vac = "LEAF_%s(%s)" % (f2, args)
+                        ok = "LEAFOK_%s(%s)" % (f2, args)
+                        break
+                    needed = any(s in sig["P%s_%s" % (u, sfx[kind])] for u in CASC_SHELLS[CASC_SHELLS.index(s) + 1:CASC_SHELLS.index(t) + 1])
+                    if needed:
+                        o.append("    double P%s = LEAF_%s(%s);" % (s, f2, args))
+            o.append("    if (!%s) { VASSERT(FAILS(r, error), \"%s: undefined vacancy production (e.g. below the edge) is an error\"); }" % (ok, fn))
+            o.append("    else { VCANARY(\"%s %s defined\");" % (fn, t))
+            o.append("      VASSERT(SAME(r, %s * LEAF_FluorYield(Z, %s_SHELL)) && NO_ERROR(error), \"%s(%s) = vacancy production of the shell (%s chain over the shells above) x fluorescence yield\"); }"
+                     % (vac, t, fn, t, kind))
+            o.append("  }\n  ERRSLOT_DONE(error);\n}")
+            groups["layer3"].append((name, fn, t, kind))
+        name = "lemma_%s_other" % fn
+        o.append("LEMMA(%s)\n{\n  ND_Z(Z); ND_SHELL(shell); ND_ENERGY(E); ND_ERRSLOT(error);\n  double r;\n  VASSUME(shell < K_SHELL || shell > M5_SHELL);\n  GHOST_RESET();" % name)
+        o.append("  r = %s(Z, shell, E, error);\n  VCANARY(\"%s other shell\");\n  VASSERT(FAILS(r, error), \"%s: a shell outside K..M5 is an error\");\n  ERRSLOT_DONE(error);\n}" % (fn, fn, fn))
+        groups["layer3"].append((name, fn, "other", kind))
+    # layer 1 goes into its own file: its functions exist only in the build-time generator, not in the library,
+    # so the native twin (replay) is built from layers 2 and 3 only
+    txt = "\n".join(o) + "\n"
+    i1 = txt.index("LEMMA(lemma_PL1_get_cross_sections_constant_auger_only)")
+    i2 = txt.index("LEMMA(lemma_PL1_pure_kissel)")
+    head = txt[:i1]
+    path1 = os.path.join(d, "h_cascade1.c")
+    path23 = os.path.join(d, "h_cascade23.c")
+    with open(path1, "w") as f:
+        f.write(head + txt[i1:i2])
+    with open(path23, "w") as f:
+        f.write(head + txt[i2:])
+    return (path1, path23), groups, sig
